@@ -32,6 +32,7 @@ def consts_for_tlc(c):
         Acts=set(c["acts"]),
         FailSets=[set(tuple(x) for x in fs) for fs in c.get("fail_sets", [[]])],
         LogSevs=set(c.get("log_sevs", [])),
+        FlagSets=[set(fs) for fs in c.get("flag_sets", [])],
         Groups=[[tuple(a) for a in g] for g in c.get("groups", [])],
         CtxVals=[[tuple(a) for a in cv] for cv in c.get("ctx_vals", [[]])],
         CallArgs=[[tuple(a) for a in ca] for ca in c.get("call_args", [[]])],
@@ -53,6 +54,10 @@ def label_to_event(label):
         return dict(op="SetDefault", l=a[0], k="", a=0, b=0)
     if name == "LogF":
         return dict(op="LogF", l=a[0], k="", a=a[1], b=a[2])
+    if name == "Flags":
+        return dict(op="Flags", l=0, k=a[0], a=a[1], b=a[2])
+    if name == "PkgLevel":
+        return dict(op="PkgLevel", l=0, k=a[0], a=a[1], b=0)
     if name == "LogM":
         return dict(op="LogM", l=a[0], k="", a=a[1], b=a[2])
     if name == "SetAttrsR":
@@ -110,6 +115,21 @@ def random_behaviours(c, rng, count, depth, max_loggers):
                 beh.append(dict(op="PkgSetLevel", l=0, k="", a=a, b=0))
             elif op == "SetDefault":
                 beh.append(dict(op="SetDefault", l=l, k="", a=0, b=0))
+            elif op == "Flags":
+                k = rng.choice(["SetFlags", "AddFlags", "RemoveFlags", "ResetFlags", "SaveFlagsAndMod", "RestoreFlags"])
+                nfs = len(c["flag_sets"])
+                nsaved = sum(1 for x in beh if x["op"] == "Flags" and x["k"] == "SaveFlagsAndMod")
+                if k == "RestoreFlags" and nsaved == 0:
+                    k = "AddFlags"
+                a_ = 0 if k == "ResetFlags" else rng.randint(1, nsaved) if k == "RestoreFlags" else rng.randint(1, nfs)
+                beh.append(dict(op="Flags", l=0, k=k, a=a_, b=rng.randint(1, nfs) if k == "SaveFlagsAndMod" else 0))
+            elif op == "PkgLevel":
+                k = rng.choice(["ResetLevel", "Reset", "SaveLevelAndSet", "RestoreLevel"])
+                nsaved = sum(1 for x in beh if x["op"] == "PkgLevel" and x["k"] == "SaveLevelAndSet")
+                if k == "RestoreLevel" and nsaved == 0:
+                    k = "SaveLevelAndSet"
+                a_ = rng.choice(sorted(c["setter_args"]["Level"]))[0] if k == "SaveLevelAndSet" else rng.randint(1, nsaved) if k == "RestoreLevel" else 0
+                beh.append(dict(op="PkgLevel", l=0, k=k, a=a_, b=0))
             elif op == "LogM":
                 beh.append(dict(op="LogM", l=l, k="", a=rng.randint(1, len(c["ctx_vals"])), b=rng.randint(1, len(c["call_args"]))))
             elif op == "SetAttrsR":
@@ -151,7 +171,7 @@ def mc_only(ctx, c, invariants, properties, name="core-mc-only", timeout=1500):
                      ["INIT Init", "NEXT Next", "CHECK_DEADLOCK FALSE", "INVARIANTS " + " ".join(invariants)] +
                      (["PROPERTIES " + " ".join(properties)] if properties else []),
                      plain=dict(MaxLoggers=c["max_loggers"], InitLevel=c["init_level"], MaxList=c.get("max_list", 2),
-                                MaxArgs=c.get("max_args", 0)))
+                                MaxArgs=c.get("max_args", 0), MaxSaved=c.get("max_saved", 2)))
     return ctx.model_check("MCB", "MCB.cfg", files={"MCB.tla": mc, "MCB.cfg": cfg}, name=name, timeout=timeout)
 
 
@@ -164,7 +184,7 @@ def run_core(ctx, c, invariants, properties, obs, rand_count, rand_depth, rand_l
                       "INVARIANTS " + " ".join(invariants)] +
                      (["PROPERTIES " + " ".join(properties)] if properties else []),
                      plain=dict(MaxLoggers=c["max_loggers"], InitLevel=c["init_level"], MaxList=c.get("max_list", 2),
-                                MaxArgs=c.get("max_args", 0)))
+                                MaxArgs=c.get("max_args", 0), MaxSaved=c.get("max_saved", 2)))
     dot = os.path.join(ctx.scratch, "graph")
     r = ctx.model_check("MC", "MC.cfg", files={"MC.tla": mc, "MC.cfg": cfg},
                         extra=["-dump", "dot,actionlabels", dot] if dump else [], name="core-mc" + tag)
@@ -193,7 +213,7 @@ def run_core(ctx, c, invariants, properties, obs, rand_count, rand_depth, rand_l
                   gate_sevs=rc.get("gate_sevs", []), names=sorted(rc["names"]), bool_lists=rc["bool_lists"],
                   layouts=rc["layouts"], opt_lists=rc["opt_lists"], customs=rc.get("customs", []),
                   fail_sets=rc.get("fail_sets", [[]]), groups=rc.get("groups", []), ctx_vals=rc.get("ctx_vals", [[]]),
-                  call_args=rc.get("call_args", [[]]), behaviours=behaviours)
+                  call_args=rc.get("call_args", [[]]), flag_sets=rc.get("flag_sets", []), behaviours=behaviours)
     sp = os.path.join(ctx.scratch, "script.json")
     with open(sp, "w") as fh:
         json.dump(script, fh)
@@ -295,7 +315,7 @@ def validate_core_trace(ctx, c, trace_path, max_loggers, name="core-trace"):
     tc["TraceFile"] = "trace.ndjson"
     mct, cfg = gen_mc("MCT", "LoggCoreTrace", tc,
                       ["SPECIFICATION TSpec", "INVARIANTS Done TOneFormat TTreeOK", "CHECK_DEADLOCK FALSE"],
-                      plain=dict(MaxLoggers=max(max_loggers, c["max_loggers"]) + 64, InitLevel=c["init_level"], MaxList=1000, MaxArgs=0))
+                      plain=dict(MaxLoggers=max(max_loggers, c["max_loggers"]) + 64, InitLevel=c["init_level"], MaxList=1000, MaxArgs=0, MaxSaved=100000))
     r = ctx.tlc("MCT", "MCT.cfg", files={"MCT.tla": mct, "MCT.cfg": cfg}, copy={trace_path: "trace.ndjson"},
                 workers=1, name=name, timeout=3000, heap="12g", allow_fail=True)
     if r.invariant_violated:
